@@ -8,7 +8,8 @@
  *   E <field>               gd_eof64 / gd_bof64 / gd_spf              -> "E <eof> <bof> <spf>"
  *   N                       gd_nframes64                              -> "N <nframes>"
  *   C                       gd_discard, end of block                  -> "C"
- * rt: 0..9 = INT8 UINT8 INT16 UINT16 INT32 UINT32 INT64 UINT64 FLOAT32 FLOAT64
+ * rt: 0..11 = INT8 UINT8 INT16 UINT16 INT32 UINT32 INT64 UINT64 FLOAT32 FLOAT64 COMPLEX64 COMPLEX128
+ *     (complex values are printed as re:im)
  * values are printed as the hex bit pattern of the element; NaNs canonical.
  * The output buffer is pre-filled with 0xA5 and has n+4 elements; at most n
  * values are printed; "!W" is appended when the library wrote past element n. */
@@ -17,9 +18,9 @@
 #include <sys/wait.h>
 #include <unistd.h>
 
-static const gd_type_t T[10] = { GD_INT8, GD_UINT8, GD_INT16, GD_UINT16, GD_INT32,
-  GD_UINT32, GD_INT64, GD_UINT64, GD_FLOAT32, GD_FLOAT64 };
-static int esize(int t) { return t < 2 ? 1 : t < 4 ? 2 : t < 6 ? 4 : t < 8 ? 8 : t == 8 ? 4 : 8; }
+static const gd_type_t T[12] = { GD_INT8, GD_UINT8, GD_INT16, GD_UINT16, GD_INT32,
+  GD_UINT32, GD_INT64, GD_UINT64, GD_FLOAT32, GD_FLOAT64, GD_COMPLEX64, GD_COMPLEX128 };
+static int esize(int t) { return t < 2 ? 1 : t < 4 ? 2 : t < 6 ? 4 : t < 8 ? 8 : t == 8 ? 4 : t == 9 ? 8 : t == 10 ? 8 : 16; }
 
 static int run_block(char **lines, int nl)
 {
@@ -55,7 +56,7 @@ static int run_block(char **lines, int nl)
     } else if (line[0] == 'G') {
       int rt; long long s; unsigned long long n, i; size_t got; int es, over = 0;
       unsigned char *buf;
-      if (!D || sscanf(line + 1, "%2047s %d %lld %llu", a, &rt, &s, &n) != 4 || rt < 0 || rt > 9) { printf("G bad\n"); continue; }
+      if (!D || sscanf(line + 1, "%2047s %d %lld %llu", a, &rt, &s, &n) != 4 || rt < 0 || rt > 11) { printf("G bad\n"); continue; }
       es = esize(rt);
       buf = malloc((n + 4) * es + 16);
       memset(buf, 0xA5, (n + 4) * es + 16);
@@ -63,6 +64,17 @@ static int run_block(char **lines, int nl)
       printf("G %d %llu", gd_error(D), (unsigned long long)got);
       for (i = 0; i < got && i < n; i++) {
         uint64_t v = 0;
+        if (rt >= 10) { /* complex: "re:im" */
+          int c, cs = es / 2;
+          for (c = 0; c < 2; c++) {
+            v = 0;
+            memcpy(&v, buf + i * es + c * cs, cs);
+            if (cs == 4) { float f; memcpy(&f, &v, 4); if (f != f) v = 0x7fc00000u; }
+            else { double d; memcpy(&d, &v, 8); if (d != d) v = 0x7ff8000000000000ull; }
+            printf("%s%" PRIx64, c ? ":" : " ", v);
+          }
+          continue;
+        }
         memcpy(&v, buf + i * es, es);
         if (rt == 8) { float f; memcpy(&f, &v, 4); if (f != f) v = 0x7fc00000u; }
         else if (rt == 9) { double d; memcpy(&d, &v, 8); if (d != d) v = 0x7ff8000000000000ull; }
